@@ -22,6 +22,9 @@ package client
 //@     assert [resume-from-last-bookmark] lastBookmark != nil && watchRequest.Options.StartFromBookmark == lastBookmark
 //@     assert [resume-without-bootstrap] !watchRequest.Options.BootstrapContents && !watchRequest.Options.BootstrapBookmark && watchRequest.Options.TailEvents == 0
 //@     assert [retries-enabled] !adapter.options.DisableWatchRetry
+//@     assert [resume-watches-the-same-selection] watchRequest.Namespace == old(watchRequest.Namespace) && watchRequest.Type == old(watchRequest.Type) && watchRequest.Id == old(watchRequest.Id) &&
+//@       watchRequest.Options.IdQuery == old(watchRequest.Options.IdQuery) && watchRequest.Options.LabelQuery == old(watchRequest.Options.LabelQuery) &&
+//@       watchRequest.Options.Aggregated == old(watchRequest.Options.Aggregated) && watchRequest.ApiVersion == old(watchRequest.ApiVersion)
 // assumptions about the environment: a context whose Done channel fired reports an error; a decoded
 // WatchResponse has no nil entries in its repeated event field (protobuf decoder)
 //@   at Err #2
@@ -34,6 +37,9 @@ package client
 //@     assume_result [decoded-message] result1 == nil ==> (forall i int :: 0 <= i && i < len(result0.Event) ==> result0.Event[i] != nil)
 //@   ensures [message-or-error] result1 == nil ==> result0 != nil && (forall i int :: 0 <= i && i < len(result0.Event) ==> result0.Event[i] != nil)
 //@   loop #1
+//@     invariant [selection-kept] watchRequest.Namespace == old(watchRequest.Namespace) && watchRequest.Type == old(watchRequest.Type) && watchRequest.Id == old(watchRequest.Id) &&
+//@       watchRequest.Options.IdQuery == old(watchRequest.Options.IdQuery) && watchRequest.Options.LabelQuery == old(watchRequest.Options.LabelQuery) &&
+//@       watchRequest.Options.Aggregated == old(watchRequest.Options.Aggregated) && watchRequest.ApiVersion == old(watchRequest.ApiVersion)
 //@     invariant [retry-state] lastBookmark != nil && !adapter.options.DisableWatchRetry && adapter != nil && adapter.client != nil &&
 //@       adapter.options.RetryLogger != nil && ctx != nil && backoff != nil && watchRequest != nil && watchRequest.Options != nil && err != nil
 //@
